@@ -447,7 +447,7 @@ def h_rewrite(ch: Chooser, vec: list, maxf: int, nrewrites: int, seed: str | Non
         all_sites = sites(root, spec)
         chosen = []
         cur_root = root
-        data, extra, mode = original.encode("utf-8"), {}, "exact"
+        data, extra, modes = original.encode("utf-8"), {}, set()
         for n in range(nrewrites):
             k = ch.choose(len(all_sites) + 1, f"rewrite{n}")
             if k == 0:
@@ -460,7 +460,7 @@ def h_rewrite(ch: Chooser, vec: list, maxf: int, nrewrites: int, seed: str | Non
                 return {"skip": True, "reason": f"rewrite {rw[0]} not applicable at this site"}
             data, ex, md = res
             extra.update(ex)
-            mode = md if md != "exact" else mode
+            modes.add(md)   # the infoset self-check below honours what every applied rewrite allows
             chosen.append(rw)
             if n + 1 < nrewrites:
                 if rw[0] in ("encode", "xinclude", "attr-charref") or any(isinstance(k2, tuple) for e2 in [0] for k2 in []):
@@ -485,9 +485,9 @@ def h_rewrite(ch: Chooser, vec: list, maxf: int, nrewrites: int, seed: str | Non
                 b = canon_drop_markup(data, workdir, bool(extra.get("xinclude")))
             except (etree.XMLSyntaxError, OSError) as e:
                 raise HarnessError(f"rewriter produced a broken document for {chosen}: {e}\n{data!r}")
-            if mode == "strip-ws":
+            if "strip-ws" in modes:
                 a, b = I.strip_ws(a), I.strip_ws(b)
-            if mode != "values" and a != b:
+            if "values" not in modes and a != b:
                 raise HarnessError(f"rewrite {chosen} changed the infoset:\n{original}\n{data!r}")
         results = {}
         ctx = XmlContext()
